@@ -9,6 +9,7 @@ import (
 	"fmt"
 	"go/token"
 	"go/types"
+	"os"
 	"sort"
 	"strconv"
 	"strings"
@@ -68,6 +69,9 @@ func (x *Exec) loopsOf(fn *ssa.Function) []*loopInfo {
 		best := token.NoPos
 		for b := range l.body {
 			for _, in := range b.Instrs {
+				if _, isPhi := in.(*ssa.Phi); isPhi {
+					continue // a phi carries the position of the variable's declaration, which may precede the loop
+				}
 				if p := in.Pos(); p != token.NoPos && (best == token.NoPos || p < best) {
 					best = p
 				}
@@ -78,6 +82,9 @@ func (x *Exec) loopsOf(fn *ssa.Function) []*loopInfo {
 	sort.Slice(loops, func(i, j int) bool { return posOf(loops[i]) < posOf(loops[j]) })
 	for i, l := range loops {
 		l.ord = i + 1
+		if os.Getenv("GOVC_DEBUG_LOOPS") != "" {
+			fmt.Fprintf(os.Stderr, "loop %d of %s: header block %d pos %v\n", l.ord, fn.Name(), l.header.Index, fn.Prog.Fset.Position(posOf(l)))
+		}
 	}
 	loopCache[fn] = loops
 	return loops
@@ -167,6 +174,10 @@ func (x *Exec) atLoopHeader(st *State, fr *Frame, h *ssa.BasicBlock) {
 			}
 			x.oblige(st, "invariant-preserved", fmt.Sprintf("loop %d invariant preserved: %s", l.ord, cl.Text), t, h.Instrs[0].Pos(), c.clauseProps(cl))
 		}
+		// "site loop N backedge assert e": e holds at the end of every iteration; itercalls("name")
+		// counts the recorded calls of this iteration
+		x.iterBase = cut.recBase
+		x.siteAsserts(st, fr, "backedge", "", nil)
 		x.loopHook(st, fr, l, "back")
 		st.dead = true
 		return
@@ -188,6 +199,7 @@ func (x *Exec) atLoopHeader(st *State, fr *Frame, h *ssa.BasicBlock) {
 		return
 	}
 	x.loopHook(st, fr, l, "entry")
+	fr.cut[h].recBase = len(st.rec)
 	// 3. assume invariants
 	env = x.loopEnv(st, fr, l)
 	env.assumeMode = true
@@ -552,6 +564,9 @@ func (x *Exec) havocCall(st *State, fr *Frame, l *loopInfo, call ssa.CallInstruc
 	if !writesThroughParams(callee, 0, map[*ssa.Function]bool{}) {
 		return
 	}
+	if os.Getenv("GOVC_DEBUG_LOOPS") != "" {
+		fmt.Fprintf(os.Stderr, "havoc by call to %s in loop %d\n", callee.Name(), l.ord)
+	}
 	for _, a := range common.Args {
 		if definedIn(l, a) {
 			continue
@@ -584,7 +599,10 @@ func writesThroughParams(fn *ssa.Function, depth int, seen map[*ssa.Function]boo
 					return true
 				}
 			case ssa.CallInstruction:
-				if c := i.Common().StaticCallee(); c != nil && c.Blocks != nil {
+				if c := i.Common().StaticCallee(); c != nil && c.Blocks != nil && fnInRepo(c) {
+					if _, isIntr := intrinsics[calleeName(c)]; isIntr {
+						continue
+					}
 					if writesThroughParams(c, depth+1, seen) {
 						return true
 					}
@@ -744,4 +762,71 @@ func (x *Exec) siteAsserts(st *State, fr *Frame, kind, arg string, bind map[stri
 			x.oblige(st, "site", fmt.Sprintf("%s: %s", strings.TrimSpace(parts[0]), parts[1]), t, token.NoPos, x.contract.Props)
 		}
 	}
+}
+
+// loopCompleteObligations: "loop N complete" demands that loop N is only left through its header
+// condition (no break, return, goto or panic-free early exit out of the body): every element of the
+// ranged collection is processed.
+func (x *Exec) loopCompleteObligations(st *State, fr *Frame, ct *Contract) {
+	for _, d := range ct.Directives["loop-complete"] {
+		n, err := strconv.Atoi(strings.TrimSpace(d))
+		if err != nil {
+			continue
+		}
+		var l *loopInfo
+		for _, c := range x.loopsOf(fr.fn) {
+			if c.ord == n {
+				l = c
+			}
+		}
+		if l == nil {
+			x.oblige(st, "loop-exit", fmt.Sprintf("loop %d exists", n), TFalse, fr.fn.Pos(), ct.Props)
+			continue
+		}
+		ok := true
+		where := l.header.Instrs[0].Pos()
+		for b := range l.body {
+			if b == l.header {
+				continue
+			}
+			for _, succ := range b.Succs {
+				if !l.body[succ] {
+					// leaving the loop from inside the body; a block that only panics is not an exit
+					if isPanicBlock(succ) {
+						continue
+					}
+					ok = false
+					if len(b.Instrs) > 0 {
+						where = b.Instrs[len(b.Instrs)-1].Pos()
+					}
+				}
+			}
+			if len(b.Instrs) > 0 {
+				if _, isRet := b.Instrs[len(b.Instrs)-1].(*ssa.Return); isRet {
+					ok = false
+					where = b.Instrs[len(b.Instrs)-1].Pos()
+				}
+			}
+		}
+		x.oblige(st, "loop-exit", fmt.Sprintf("loop %d is left only through its header condition (every element is processed)", n), BoolLit(ok), where, ct.Props)
+	}
+}
+
+func isPanicBlock(b *ssa.BasicBlock) bool {
+	if len(b.Instrs) == 0 {
+		return false
+	}
+	_, ok := b.Instrs[len(b.Instrs)-1].(*ssa.Panic)
+	return ok
+}
+
+func fnInRepo(fn *ssa.Function) bool {
+	pkg := fn.Pkg
+	if pkg == nil && fn.Origin() != nil {
+		pkg = fn.Origin().Pkg
+	}
+	for q := fn; pkg == nil && q.Parent() != nil; q = q.Parent() {
+		pkg = q.Parent().Pkg
+	}
+	return pkg != nil && strings.HasPrefix(pkg.Pkg.Path(), repoModule)
 }
